@@ -255,7 +255,7 @@ include hI hR in
 theorem wanted_fresh {dst : Replica} {n : Node} {o : Option Node} (h : wanted d dst n = some o) :
     n.id ∉ dst.deadIds := by
   unfold wanted at h
-  simp only [hI, hR, Bool.not_false, Bool.true_and, Bool.true_or, Bool.and_true] at h
+  simp only [hI, hR, Bool.not_false, Bool.true_and, Bool.true_or, Bool.and_true, Bool.and_self] at h
   split at h
   · cases h
   · rename_i hany
